@@ -160,6 +160,30 @@ def run(ctx):
             oku = True
     C.check(oku, 'C17-SIB-columns', 'walk|unknown-attribute-is-reported', 'an attribute that the element type of the target version does not know at all (find_attribute_spec returns None) is skipped by the compatibility walk: set_version succeeds and the strict parser then rejects the file with an unknown-attribute error',
             '%s:%d' % (cw.file, cw.line), sample={'fn': 'check_version_compatibility', 'none_edge': 'push(IncompatibleAttribute)'})
+    # every sub element that is allowed in the target version is descended into (its attributes, its value and its children are judged
+    # by the recursive call and nowhere else)
+    cps = [p_ for p_ in calls(cw, r'AutosarVersion>?::compatible$') if rec and any(p_[0] in body and rec[0][0] in body for h, body in cw.natural_loops())]
+    okd = False
+    from pairing import guarded_by_true
+    for p_ in cps:
+        sw = switch_edges_on_call_result(cw, p_)
+        if not sw or set(sw[1].keys()) != {'0'}:
+            continue
+        true_t = sw[2]
+        loops_ = [(h, body) for h, body in cw.natural_loops() if p_[0] in body and rec[0][0] in body]
+        if not loops_:
+            continue
+        h, body = min(loops_, key=lambda x: len(x[1]))
+        back = [(bi, cw.nstmts(bi)) for bi in body if h in cw.succs(bi)]
+        if rec[0][0] in {q[0] for q in cw.reach_from((true_t, 0), include_start=True)} and must_pass(cw, (true_t, 0), back, through={rec[0][0:2] if False else rec[0]}):
+            okd = True
+    C.check(okd, 'C17-SIB-columns', 'walk|every-compatible-sub-element-is-descended-into', 'a sub element that exists in the target version can be passed over without the recursive compatibility check (a shortcut for "plain" elements): its enum value / attributes are never compared with the target version',
+            cw.where(rec[0]) if rec else '', sample={'fn': 'check_version_compatibility', 'compatible_edge': 'sub_element.check_version_compatibility(file, target_version)'})
+    # the target-version definition of a sub element is taken as the specification gives it (not filtered by the element's current type:
+    # about 280 sub elements have a second definition with a disjoint version range)
+    flt = [p_ for p_ in calls(cw, r'Option::<T>::(filter|and_then|take_if)$') if any(c.endswith('ElementType::find_sub_element') for c in deep_sources(cw, cw.blocks[p_[0]]['term']['args'][0], depth=8)[1])]
+    C.check(not flt, 'C17-SIB-columns', 'walk|target-definition-not-filtered', 'the definition found for the target version is filtered before it is used (e.g. by the element\'s current type): elements whose definition changes between versions are reported as incompatible although the relabelled file loads',
+            cw.where(flt[0]) if flt else '')
     # the version a file is written with is the version stored in the file: serialize() rewrites the schema location of the root
     # from ArxmlFileRaw.version on EVERY path before the text is produced (set_version() itself only stores the version)
     C.rule('C17-MUST-header', 'ArxmlFile::serialize calls AutosarModelRaw::set_version(self.version) on every path before Element::serialize_internal: after a successful set_version() the serialized header always names the new version (no conditional / try-lock around the update)')
